@@ -316,7 +316,9 @@ def wed(params):
     pt_b = vsum(base_bottom, vec_b)
     vec_ab = vdiff(vec_a, vec_b)
     vec_c = vect(vec_ab, height)
-    sign_c = 1 if mixed(vec_a, vec_b, vec_c) > 0. else -1
+    # vec_c is normal to the slanted face; the outside of the wedge is the
+    # side of the slanted face that vec_a (and vec_b) point to
+    sign_c = 1 if scal(vec_c, vec_a) > 0. else -1
     return [
         (MS.P, planeParamsFromNormalAndPoint(vec_c, pt_a), sign_c),
         (MS.P, planeParamsFromNormalAndPoint(vec_a, pt_b), -1),
